@@ -13,7 +13,7 @@
 From H3V Require Import Base.Bytes Base.BytesLemmas Model.Varint Model.HttpCrate Model.Headers Spec.WellFormed Proofs.HeadersProofs
   Model.EndToEnd Spec.EndToEndSpec Model.EndToEndRef Model.EndToEndLayers
   Spec.EndToEndStream Proofs.EndToEndProofs Proofs.EndToEndHeaders Proofs.EndToEndWire Proofs.EndToEndFrames
-  Proofs.EndToEndRefProofs Proofs.EndToEndInst.
+  Proofs.EndToEndRefProofs Proofs.EndToEndReader Proofs.EndToEndInst.
 
 Theorem C01_composition :
   forall (H H' T T' : Type)
@@ -39,9 +39,14 @@ Theorem C01_composition :
         Forall (fun f => match f with SHeaders x => block_ok x | SData p => block_ok p
                                     | SGrease g => g < 148764065110560899 end) fs ->
         wire_write fs ks = Some b -> b = concat (map frame_bytes fs)) ->
-    (* C02 + C03: under any chunking and interleaving the completed calls hand up the RFC reading of the flat bytes *)
+    (* C02 + C03: under any chunking and interleaving the completed calls hand up the RFC reading of the flat bytes
+       (asked only when that reading has no error item) *)
     (forall h items s, hist_ok h = true -> rx_run rstate r_arrive r_fin r_poll h r_init = (items, s) ->
-                       r_done s = true -> merge_items [] items = stream_outcome (hist_flat h)) ->
+                       r_done s = true -> wf_bytes (hist_flat h) -> no_fail (stream_outcome (hist_flat h)) ->
+                       merge_items [] items = stream_outcome (hist_flat h)) ->
+    (* the layout of a frame with a byte-valued payload consists of bytes *)
+    (forall f, match f with SHeaders x => block_ok x | SData p => block_ok p
+                          | SGrease g => g < 148764065110560899 end -> wf_bytes (frame_bytes f)) ->
     (* RFC 9114 4.1 / 7.1: reading back HEADERS DATA* HEADERS? (reserved-type frame)? *)
     (forall hb pieces tb g,
         block_ok hb -> Forall block_ok pieces -> match tb with Some b => block_ok b | None => True end ->
@@ -70,7 +75,7 @@ Proof. exact e2e_fidelity_generic. Qed.
        (Proofs/EndToEndHeaders.v), for every message satisfying [request_head_ok] / [response_head_ok] /
        [trailers_ok] - these predicates ARE the `http`-crate premises (every Method / Scheme / Authority /
        PathAndQuery / HeaderName / HeaderValue the application can hold prints to a string the crate's parser accepts;
-       at most 24576 field lines) plus a field section below 2^60 bytes (RFC 9114 4.2.2 measure);
+       at most 24576 field lines) plus a field section below 2^26 bytes (RFC 9114 4.2.2 measure);
      * write side: stream::write over the C14 WriteBuf model under any acceptance script (Proofs/EndToEndWire.v);
      * the RFC reading of HEADERS DATA* HEADERS? reserved? laid out per RFC 9114 7.1 is exactly those frames
        (Proofs/EndToEndFrames.v, over the C02 reference reader Spec/Frames.v).
@@ -87,7 +92,8 @@ Theorem C01_request_fidelity_partial :
     (forall fs b, fields_ok fs -> encode_section fs = Some b -> block_ok b /\ decode_section b = Some fs) ->
     (* P-C02/C03 *)
     (forall h items s, hist_ok h = true -> rx_run rstate r_arrive r_fin r_poll h r_init = (items, s) ->
-                       r_done s = true -> merge_items [] items = rfc_stream_reading (hist_flat h)) ->
+                       r_done s = true -> wf_bytes (hist_flat h) -> no_fail (rfc_stream_reading (hist_flat h)) ->
+                       merge_items [] items = rfc_stream_reading (hist_flat h)) ->
     forall (grease : option N) (m : message c12_request hmap) (ks : list N) (b : bytes) (h : list hevent) items s,
       request_head_ok (m_head m) -> Forall block_ok (m_pieces m) ->
       match m_trailers m with Some t => trailers_ok t | None => True end ->
@@ -106,7 +112,8 @@ Theorem C01_response_fidelity_partial :
     (r_poll : rstate -> list ritem * rstate) (r_done : rstate -> bool),
     (forall fs b, fields_ok fs -> encode_section fs = Some b -> block_ok b /\ decode_section b = Some fs) ->
     (forall h items s, hist_ok h = true -> rx_run rstate r_arrive r_fin r_poll h r_init = (items, s) ->
-                       r_done s = true -> merge_items [] items = rfc_stream_reading (hist_flat h)) ->
+                       r_done s = true -> wf_bytes (hist_flat h) -> no_fail (rfc_stream_reading (hist_flat h)) ->
+                       merge_items [] items = rfc_stream_reading (hist_flat h)) ->
     forall (grease : option N) (m : message c12_response hmap) (ks : list N) (b : bytes) (h : list hevent) items s,
       response_head_ok (m_head m) -> Forall block_ok (m_pieces m) ->
       match m_trailers m with Some t => trailers_ok t | None => True end ->
@@ -147,6 +154,49 @@ Theorem C01_response_fidelity_store_and_forward :
                      sfstate sf_init sf_arrive sf_finish sf_poll h
     = expected_events (fun p => {| rs_status := cp_status p; rs_headers := cp_fields p |}) (fun t : hmap => t) m.
 Proof. exact response_fidelity_store_and_forward. Qed.
+
+(* The same with the INCREMENTAL reference reader (Model/EndToEndRef.v ref_poll: one frame header or one piece of DATA
+   payload per call, over the receive buffer) - the receive side of the pipeline that the correspondence run executes
+   against the real code.  CLOSED: for every message, piece split, acceptance script, chunking and interleaving. *)
+Theorem C01_request_fidelity_reference_reader :
+  forall (grease : option N) (m : message c12_request hmap) (ks : list N) (b : bytes) (h : list hevent) items s,
+    request_head_ok (m_head m) -> Forall block_ok (m_pieces m) ->
+    match m_trailers m with Some t => trailers_ok t | None => True end ->
+    match grease with Some g => g < 148764065110560899 | None => True end ->
+    wire c12_request hmap c12_fields_of_request c12_fields_of_trailers ref_encode_section c14_wire_write grease m ks = Some b ->
+    hist_ok h = true -> hist_flat h = b ->
+    rx_run rstate ref_arrive ref_fin ref_poll h ref_init = (items, s) -> ref_done s = true ->
+    receiver_outcome request hmap c12_request_of_fields c12_trailers_of_fields ref_decode_section
+                     rstate ref_init ref_arrive ref_fin ref_poll h
+    = expected_events c12_norm_request (fun t : hmap => t) m.
+Proof. exact request_fidelity_reference_reader. Qed.
+
+Theorem C01_response_fidelity_reference_reader :
+  forall (grease : option N) (m : message c12_response hmap) (ks : list N) (b : bytes) (h : list hevent) items s,
+    response_head_ok (m_head m) -> Forall block_ok (m_pieces m) ->
+    match m_trailers m with Some t => trailers_ok t | None => True end ->
+    match grease with Some g => g < 148764065110560899 | None => True end ->
+    wire c12_response hmap c12_fields_of_response c12_fields_of_trailers ref_encode_section c14_wire_write grease m ks = Some b ->
+    hist_ok h = true -> hist_flat h = b ->
+    rx_run rstate ref_arrive ref_fin ref_poll h ref_init = (items, s) -> ref_done s = true ->
+    receiver_outcome response hmap c12_response_of_fields c12_trailers_of_fields ref_decode_section
+                     rstate ref_init ref_arrive ref_fin ref_poll h
+    = expected_events (fun p => {| rs_status := cp_status p; rs_headers := cp_fields p |}) (fun t : hmap => t) m.
+Proof. exact response_fidelity_reference_reader. Qed.
+
+(* the reader's law on its own: any chunking, any interleaving of arrivals and calls - the items handed up, body
+   pieces merged, are the RFC reading of the flat bytes (for streams whose reading has no error item) ... *)
+Theorem C01_reference_reader_any_interleaving :
+  forall h items s,
+    hist_ok h = true -> rx_run rstate ref_arrive ref_fin ref_poll h ref_init = (items, s) -> ref_done s = true ->
+    no_fail (rfc_stream_reading (hist_flat h)) ->
+    forall a, merge_items a items = merge_items a (rfc_stream_reading (hist_flat h)).
+Proof. exact ref_reader_law. Qed.
+(* ... and once everything has arrived finitely many further calls complete the message (no call pends forever) *)
+Theorem C01_reference_reader_completes :
+  forall h, hist_ok h = true -> no_fail (rfc_stream_reading (hist_flat h)) ->
+    exists m items s, rx_run rstate ref_arrive ref_fin ref_poll (h ++ repeat HPoll m) ref_init = (items, s) /\ ref_done s = true.
+Proof. exact ref_reader_completes. Qed.
 
 (* non-vacuity of the `http`-crate premises and of the closed theorem: POST http://a.b/x?y with x-a: 1,2,3 and an
    empty-valued field satisfies [request_head_ok]; sent in four pieces (one empty) with trailers and a grease frame,
@@ -189,8 +239,11 @@ Example C01_h3_layers_inhabited :
     hist_ok (mk_history [1; 2; 3; 1; 1] [0; 2; 1; 0] 2 b) = true /\
     receiver_outcome request hmap c12_request_of_fields c12_trailers_of_fields ref_decode_section
                      sfstate sf_init sf_arrive sf_finish sf_poll (mk_history [1; 2; 3; 1; 1] [0; 2; 1; 0] 2 b)
+    = expected_events c12_norm_request (fun t : hmap => t) m /\
+    receiver_outcome request hmap c12_request_of_fields c12_trailers_of_fields ref_decode_section
+                     rstate ref_init ref_arrive ref_fin ref_poll (mk_history [1; 2; 3; 1; 1] [0; 2; 1; 0] 20 b)
     = expected_events c12_norm_request (fun t : hmap => t) m.
-Proof. eexists. split; [vm_compute; reflexivity|]. split; vm_compute; reflexivity. Qed.
+Proof. eexists. split; [vm_compute; reflexivity|]. split; [|split]; vm_compute; reflexivity. Qed.
 
 (* the layers discharged so far, pinned on their own *)
 Theorem C01_request_head_roundtrip :
@@ -245,7 +298,7 @@ Example C01_pipeline_inhabited :
 Proof. split; vm_compute; reflexivity. Qed.
 
 Example C01_response_inhabited :
-  let m := Msg {| p_status := 404; p_fields := [([97], [49]); ([97], [50])] |} [[7; 8]; [9]] None in
+  let m := Msg {| rp_status := 404; rp_fields := [([97], [49]); ([97], [50])] |} [[7; 8]; [9]] None in
   ref_response_outcome None m [3] [2] [1]
   = Some (expected_events norm_response norm_trailers m).
 Proof. vm_compute; reflexivity. Qed.
@@ -255,6 +308,10 @@ Print Assumptions C01_request_fidelity_partial.
 Print Assumptions C01_response_fidelity_partial.
 Print Assumptions C01_request_fidelity_store_and_forward.
 Print Assumptions C01_response_fidelity_store_and_forward.
+Print Assumptions C01_request_fidelity_reference_reader.
+Print Assumptions C01_response_fidelity_reference_reader.
+Print Assumptions C01_reference_reader_any_interleaving.
+Print Assumptions C01_reference_reader_completes.
 Print Assumptions C01_request_head_roundtrip.
 Print Assumptions C01_delivered_target.
 Print Assumptions C01_response_head_roundtrip.
